@@ -152,6 +152,21 @@ func c20Deliver(c *deliverCtx) {
 			w.nontriv = true
 		}
 	}
+	// plain encoding of a DECODED message (forwarding / logging it) must not alter it either
+	if w.step%3 == 0 {
+		var enc []byte
+		r := &callResult{}
+		guard(r, func() { enc, r.Err = c.msg.Encode() })
+		if r.class() == "ok" {
+			after := extract(c.msg)
+			if d := specDiff(snap0, after); d != "" {
+				w.violate("encode_altered_message", "decoded:"+d, "plain encoding of a decoded message altered it at %s:\n before %s\n after  %s", d, jsonOf(snap0), jsonOf(after))
+				return
+			}
+			scribble(enc, "complement", 0)
+			w.stats.inc("c20_decoded_reencoded")
+		}
+	}
 	h := &held{msg: c.msg, snap: canon0, spec: snap0, left: rx.Hold + 1, step: w.step}
 	for _, p := range c.msg.Payloads {
 		switch v := p.(type) {
@@ -172,6 +187,37 @@ func headerTuple(m *message.IKEMessage) [7]uint64 {
 	return [7]uint64{m.InitiatorSPI, m.ResponderSPI, uint64(m.MajorVersion), uint64(m.MinorVersion), uint64(m.ExchangeType), uint64(m.Flags), uint64(m.MessageID)}
 }
 
+type heldEnc struct {
+	buf  []byte
+	snap []byte
+	step int
+}
+
+// c20HeldEncodings: buffers returned by the public IKEPayloadContainer.Encode are held
+// across later encodings (of other messages) and must keep their content.
+func c20HeldEncodings(w *World, twin *message.IKEMessage) {
+	helds, _ := w.ext["c20_heldenc"].([]*heldEnc)
+	for _, h := range helds {
+		if !bytes.Equal(h.buf, h.snap) {
+			w.violate("returned_buffer_changed_later", "container.Encode", "a buffer returned by IKEPayloadContainer.Encode at step %d changed when another message was encoded later", h.step)
+			break
+		}
+	}
+	if len(helds) >= 4 {
+		helds = helds[1:]
+	}
+	if twin != nil && len(twin.Payloads) > 0 {
+		var b []byte
+		r := &callResult{}
+		guard(r, func() { b, r.Err = twin.Payloads.Encode() })
+		if r.class() == "ok" && len(b) > 0 {
+			helds = append(helds, &heldEnc{buf: b, snap: clone(b), step: w.step})
+			w.stats.inc("c20_returned_buffers_held")
+		}
+	}
+	w.ext["c20_heldenc"] = helds
+}
+
 func c20Send(c *sendCtx) {
 	w, s := c.w, c.s
 	c20Tick(w, false)
@@ -183,6 +229,7 @@ func c20Send(c *sendCtx) {
 		return
 	}
 	before := extract(spec0)
+	c20HeldEncodings(w, spec0)
 	if s.NilKey {
 		// plain encoding is pure: message unchanged, same payload objects, deterministic
 		after := extract(c.msg)
@@ -270,13 +317,19 @@ func genC20(r *Rng, idx int, tier string) *Scenario {
 		n = 2
 	}
 	var pending []int
+	nilkeys := map[int]bool{}
 	flush := func(all bool) {
 		for len(pending) > 0 && (all || r.Chance(1, 2)) {
 			k := r.Intn(len(pending))
 			rx := genRx(r)
 			rx.Scribble = Pick(r, "", "complement", "complement", "random", "zero")
 			rx.Hold = Pick(r, 0, 0, 1, 2, 4, 8)
-			sc.Steps = append(sc.Steps, Step{Op: "deliver", Dgram: pending[k], Rx: rx, Obj: Pick(r, "long", "twin")})
+			st := Step{Op: "deliver", Dgram: pending[k], Rx: rx, Obj: Pick(r, "long", "twin")}
+			if nilkeys[pending[k]] && r.Chance(1, 3) {
+				// an accepted byte string that no encoder of ours produced: reserved / high bits set, fields edited
+				st.Fault = &Fault{Kind: "bitflip", Byte: 28 + r.Intn(60), Bit: Pick(r, 7, 7, 6, r.Intn(8))}
+			}
+			sc.Steps = append(sc.Steps, st)
 			pending = append(pending[:k], pending[k+1:]...)
 		}
 	}
@@ -290,6 +343,7 @@ func genC20(r *Rng, idx int, tier string) *Scenario {
 		}
 		st := Step{Op: "send", SA: 0, Dgram: i, From: Pick(r, "I", "R"), Msg: m, Rand: &RandScript{Seed: r.U64()}, Repeat: r.Range(2, 8)}
 		st.NilKey = r.Chance(2, 5)
+		nilkeys[i] = st.NilKey
 		sc.Steps = append(sc.Steps, st)
 		pending = append(pending, i)
 		flush(false)
